@@ -9,6 +9,7 @@ Example C32_nonvacuous_values :
   nt_crt GMP [2; 3; 2] [3; 5; 7] = Ok (Some 23) /\ nt_crt GMP [1; 2] [4; 6] = Ok None /\
   nt_crt BOOST [3; 5] [4; 6] = Ok (Some 11) /\
   nt_powermod GMP 3 (-1) 10 = Ok (Some 7) /\ nt_powermod BOOST (-3) 3 5 = Ok (Some 3) /\
+  nt_powermod BOOST (-3) 3 (-5) = Ok (Some 3) /\ nt_gcd_ext BOOST 0 0 = Ok (0, 0, 0) /\ nt_kronecker BOOST 1 0 = Ok 1 /\
   nt_binomial (-7) 3 = -84 /\ nt_binomial 10 3 = 120 /\ nt_factorial 10 = 3628800 /\
   nt_fibonacci 30 = 832040 /\ nt_lucas 10 = 123 /\
   nt_prime_factor_multiplicities (-126) = Ok [(2, 1); (3, 2); (7, 1)] /\
